@@ -297,6 +297,11 @@ def gen_module(rng, nested=True, allow_flags=True, max_defs=3):
         if d is None:
             break
         defs.append(d)
+    if len(defs) >= 2 and rng.random() < 0.35:
+        # two different inner DAGs that carry the SAME qualname (built by a factory, defined in two scopes …): node ids are
+        # prefixed with the DAG's qualname, the two splices must still never capture each other's nodes
+        for d_ in defs[:2]:
+            d_["qual"] = "shared_qualname"
     top = gen_def(rng, "main", defs, True, allow_flags)
     defs.append(top)
     args = []
@@ -501,6 +506,8 @@ def build_real(mod, attrs, maxc, is_async, is_async_inner=False):
     for k, d in enumerate(mod["defs"]):
         exec(def_source(d, mod["defs"], False), env)   # noqa: S102
         fn = env[d["name"]]
+        if d.get("qual"):
+            fn.__qualname__ = fn.__name__ = d["qual"]
         top = k == len(mod["defs"]) - 1
         obj = threadsafe_make_dag(fn, maxc if top else 1, is_async if top else False)
         env[d["name"]] = obj
